@@ -65,6 +65,10 @@ def windowTiles : Nat := 8
 def window : Nat := windowTiles * tileWidth
 /-- `numHashes > 63` -/
 def maxProofHashes : Nat := 63
+/-- the status of a mirror-info response from the metadata and commit phases (`http.StatusConflict`) … -/
+def stConflict : Nat := 409
+/-- … and from the package phase, after a truncated body (`http.StatusAccepted`) -/
+def stAccepted : Nat := 202
 
 /-! ## configuration -/
 
@@ -323,12 +327,12 @@ def metaDecide (c : MCfg) (rid : Nat) (q : MetaReq) (pend mir : PCk) (next : Nat
   if mir.ck.1 > pend.ck.1 then (st2, .err .internal) else
   if mir.ck.1 > next then (st2, .err .internal) else
   if next > pend.ck.1 then (st2, .err .internal) else
-  if q.stop < mir.ck.1 then conflict c 409 pend next st2 else
+  if q.stop < mir.ck.1 then conflict c stConflict pend next st2 else
   match resolve c st2.key pend mir q with
-  | none => conflict c 409 pend next st2
+  | none => conflict c stConflict pend next st2
   | some r =>
     if q.start > next ∨ min q.stop next - q.start > window then
-      if next ≤ q.stop then conflict c 409 r next st2 else conflict c 409 pend next st2
+      if next ≤ q.stop then conflict c stConflict r next st2 else conflict c stConflict pend next st2
     else
       (st2.setReq rid (some { ck := r.ck, payload := r.payload, start := q.start, stop := q.stop, i := 0, ov := [] }), .cont)
 
@@ -463,10 +467,10 @@ def conflictNext (c : MCfg) (r : Req) (fp : Bool) (st : MState) : MState × Resp
   match st.next with
   | none => (st, .err .internal)
   | some next =>
-    if next ≤ r.ck.1 then conflict c 202 ⟨r.ck, r.payload⟩ next st
+    if next ≤ r.ck.1 then conflict c stAccepted ⟨r.ck, r.payload⟩ next st
     else match fetchPending emptyHash c fp st with
       | (st1, none) => (st1, .err .internal)
-      | (st1, some p) => conflict c 202 p next st1
+      | (st1, some p) => conflict c stAccepted p next st1
 
 /-! ## one package -/
 
@@ -553,7 +557,7 @@ def commitDecide (c : MCfg) (r : Req) (fp fh fw : Bool) (ud uh rep up : Fault) (
   if r.ck.1 < mir.ck.1 then
     match fetchPending emptyHash c fp st1 with
     | (st2, none) => (st2, .err .internal)
-    | (st2, some p) => conflict c 409 p next st2
+    | (st2, some p) => conflict c stConflict p next st2
   else
   match ensureCut leaf r.ck.1 next fh fw ud uh st1 with
   | (st2, false) => (st2, .err .internal)
